@@ -13,6 +13,9 @@
                            early exit such as a nesting-depth cap (seeded defect C01-r5-2)
   gc_next_mitems : N -> N   the threshold policy read off `gc->mitems = <expr in gc->nitems>;` in GC_Sweep and GC_Rem
                            (tuning: the theorems hold for every policy)
+  view_internals_registered : bool   the objects the constructors of heap Zip / Slice / Range allocate internally (Zip: iters,
+                           values Tuples; Slice: its Range; Range: its Int) are managed (new), not raw: the model treats them as
+                           ordinary registered nodes with edges to the view's inputs (seeded defect C18-r6-1: new_raw)
   gc_leaf_types   : list string   types GC_Recurse returns on at once
   gc_mark_shape_ok : bool  the functions the model transcribes (GC_Mark_Item, GC_Recurse, GC_Mark's
                            three passes, GC_Mark_Stack, the Mark instances of Array List Table Tree
@@ -21,6 +24,7 @@
                            definition out = broken obligation
 """
 import re
+import gcmark_sym as sym
 
 
 def norm(t):
@@ -66,6 +70,7 @@ EXPECT = {
         '{struct Thread*t=self;mark(t->tls,gc,f);}',
 }
 
+ITEM_KEY = ('src/GC.c', r'static\s+void\s+GC_Mark_Item\s*\(\s*void\*\s*_gc\s*,\s*void\*\s*ptr\s*\)\s*\{')
 MAR_OLD = '{struct GC*gc=_gc;GC_Mark_Item(gc,ptr);GC_Recurse(gc,ptr);}'
 MAR_NEW = '{struct GC*gc=_gc;if(GC_Mem_Ptr(gc,ptr)){GC_Mark_Item(gc,ptr);return;}GC_Recurse(gc,ptr);}'
 
@@ -109,12 +114,35 @@ def generate(repo, emit, src, func_body):
         emit('gc_tls_recurses', None)
     # --- GC_Mark_And_Recurse
     mb = norm(func_body(gc, r'static\s+void\s+GC_Mark_And_Recurse\s*\(\s*void\*\s*_gc\s*,\s*void\*\s*ptr\s*\)\s*\{'))
+    reader = sym.Reader(gc, func_body, lambda t: inline_helpers(t, gc, func_body))
+    ib_raw = func_body(gc, r'static\s+void\s+GC_Mark_Item\s*\(\s*void\*\s*_gc\s*,\s*void\*\s*ptr\s*\)\s*\{')
+    # decision table of GC_Mark_Item: the pinned form (probe loop inline) by its text, any loop-free form symbolically
+    item_pinned = inline_helpers(norm(ib_raw), gc, func_body) == norm(EXPECT[ITEM_KEY])
+    item_table, item_why = (sym.model_item(), None) if item_pinned else (None, None)
+    if item_table is None:
+        try:
+            item_table = reader.table(ib_raw, sym.ITEM_FACTS)
+            item_why = sym.diff(sym.ITEM_FACTS, item_table, sym.model_item())
+        except (sym.Unknown, TypeError) as e:
+            item_why = 'not read: %s' % e
+    mar_raw = func_body(gc, r'static\s+void\s+GC_Mark_And_Recurse\s*\(\s*void\*\s*_gc\s*,\s*void\*\s*ptr\s*\)\s*\{')
     if mb == norm(MAR_NEW):
         emit('gc_mar_guarded', 'Definition gc_mar_guarded : bool := true.   (* source: if (GC_Mem_Ptr(gc, ptr)) { GC_Mark_Item(gc, ptr); return; } GC_Recurse(gc, ptr); *)')
     elif mb == norm(MAR_OLD):
         emit('gc_mar_guarded', 'Definition gc_mar_guarded : bool := false.   (* source: GC_Mark_Item(gc, ptr); GC_Recurse(gc, ptr); *)')
     else:
-        emit('gc_mar_guarded', None)
+        why = None
+        try:
+            t = reader.table(mar_raw, sym.ITEM_FACTS, item_table=item_table if item_table and not item_why else sym.model_item())
+            why = sym.diff(sym.ITEM_FACTS, t, sym.model_mar(True))
+            if why is None:
+                emit('gc_mar_guarded', 'Definition gc_mar_guarded : bool := true.   (* decision table of GC_Mark_And_Recurse read symbolically: registered -> as GC_Mark_Item, not registered -> GC_Recurse *)')
+            elif sym.diff(sym.ITEM_FACTS, t, sym.model_mar(False)) is None:
+                emit('gc_mar_guarded', 'Definition gc_mar_guarded : bool := false.   (* decision table: GC_Mark_Item, then GC_Recurse on everything *)')
+            else:
+                emit('gc_mar_guarded (GC_Mark_And_Recurse differs from the model in row %s)' % why, None)
+        except (sym.Unknown, TypeError) as e:
+            emit('gc_mar_guarded (GC_Mark_And_Recurse not read: %s)' % e, None)
     # --- leaf types of GC_Recurse
     rb = func_body(gc, r'static\s+void\s+GC_Recurse\s*\(\s*struct\s+GC\*\s*gc\s*,\s*var\s+ptr\s*\)\s*\{')
     lm = re.search(r'if\s*\(((?:\s*type\s+is\s+\w+\s*(?:or)?)+)\)\s*\{\s*return;\s*\}', rb or '')
@@ -129,14 +157,25 @@ def generate(repo, emit, src, func_body):
     # GC_Mark_Item only on the prefilter, at the end of the probe sequence, and after tracing the entry it marked.
     # Any further exit (e.g. a nesting-depth cap) would leave reachable objects unvisited: the model's mark phase has
     # no depth bound, the implementation's depth is limited by the C stack only (finding F1).
-    ib = func_body(gc, r'static\s+void\s+GC_Mark_Item\s*\(\s*void\*\s*_gc\s*,\s*void\*\s*ptr\s*\)\s*\{')
-    if rb and ib:
-        emit('gc_tracer_exits', 'Definition gc_recurse_returns : nat := %d.\nDefinition gc_mark_item_returns : nat := %d.   (* number of `return` statements *)'
-             % (len(re.findall(r'\breturn\b', rb)), len(re.findall(r'\breturn\b', ib))))
+    if rb:
+        emit('gc_tracer_exits', 'Definition gc_recurse_returns : nat := %d.   (* number of `return` statements in GC_Recurse *)'
+             % len(re.findall(r'\breturn\b', rb)))
     else:
         emit('gc_tracer_exits', None)
     # --- shapes
     bad = []
+    ROOTLOOP = r'for\(size_ti=0;i<gc->nslots;i\+\+\)\{'
+
+    def cut_root_loop(text):
+        """(text with the body of the root loop replaced by a placeholder, the body) on normalised text"""
+        m = re.search(ROOTLOOP, text)
+        if not m: return text, None
+        depth, j = 1, m.end()
+        while j < len(text) and depth:
+            depth += text[j] == '{'; depth -= text[j] == '}'
+            j += 1
+        return text[:m.end()] + 'ROOTBODY}' + text[j:], text[m.end() - 1:j]
+
     for (file, hdr), want in EXPECT.items():
         body = func_body(src(file), hdr)
         got = norm(body)
@@ -147,6 +186,28 @@ def generate(repo, emit, src, func_body):
             w = w.replace('LEAFTEST', norm(leaf_text) if leaf_text else '?')
         if 'TLSCB' in w:
             w = w.replace('TLSCB', cb or '?')
+        if (file, hdr) == ITEM_KEY:
+            # GC_Mark_Item: accepted when its decision table is the model's (pinned text, or read symbolically)
+            if item_why:
+                bad.append('GC_Mark_Item [%s]' % item_why)
+            continue
+        if re.search(r'void\\s\+GC_Mark\\s', hdr) and 'GC_Mark_Stack' not in hdr and 'GC_Mark_Item' not in hdr:
+            # GC_Mark: the text around the root loop as pinned; the loop body by its decision table
+            g2, _ = cut_root_loop(got)
+            w2, _ = cut_root_loop(norm(w))
+            m = re.search(r'for\s*\(\s*size_t\s+i\s*=\s*0\s*;\s*i\s*<\s*gc->nslots\s*;\s*i\+\+\s*\)\s*\{', body or '')
+            why = 'no root loop'
+            if m:
+                try:
+                    lb = func_body(body[m.start():], r'for\s*\([^{]*\{')
+                    why = sym.diff(sym.ROOT_FACTS, reader.table(lb, sym.ROOT_FACTS), sym.model_root())
+                except (sym.Unknown, TypeError) as e:
+                    why = 'root loop not read: %s' % e
+            if g2 != w2:
+                bad.append('GC_Mark')
+            elif why:
+                bad.append('GC_Mark root loop [%s]' % why)
+            continue
         alt = None
         if 'Thread_Mark' in hdr:
             # repaired form (fix f2b0c3a): only the current thread walks its own thread local storage; the mark phase
@@ -177,12 +238,29 @@ def generate(repo, emit, src, func_body):
     # theorems hold for every policy.  The two sites must agree (the model has one policy).
     r1 = re.findall(r'gc->mitems=([^;]+);', sweepb)
     r2 = re.findall(r'gc->mitems=([^;]+);', remb)
-    pol = small_expr(r1[0], 'gc->nitems') if len(r1) == 1 and len(r2) == 1 and r1[0] == r2[0] else None
+    pol, poltext = None, None
+    if len(r1) == 1 and len(r2) == 1 and r1[0] == r2[0]:
+        poltext = r1[0]
+        pol = small_expr(r1[0], 'gc->nitems')
+        mh = re.fullmatch(r'(GC_\w+)\(gc->nitems\)', r1[0])
+        if not pol and mh:
+            # the policy lives in a helper  static size_t NAME(size_t nitems) { [size_t v = e;] return e' ; }
+            hb = func_body(gc, r'static\s+size_t\s+%s\s*\(\s*size_t\s+nitems\s*\)\s*\{' % mh.group(1))
+            hn = norm(hb)
+            m1 = re.fullmatch(r'\{return([^;?]+);\}', hn)
+            m2 = re.fullmatch(r'\{size_t(\w+)=([^;?]+);return\1<(\d+)\?\3:\1;\}', hn)
+            if m1:
+                pol = small_expr(m1.group(1), 'nitems'); poltext = hn
+            elif m2 and small_expr(m2.group(2), 'nitems'):
+                pol = 'N.max %s (%s)' % (m2.group(3), small_expr(m2.group(2), 'nitems')); poltext = hn
     if pol:
-        emit('gc_next_mitems', 'Definition gc_next_mitems (n : N) : N := (%s)%%N.   (* source: gc->mitems = %s *)' % (pol, r1[0]))
+        emit('gc_next_mitems', 'Definition gc_next_mitems (n : N) : N := (%s)%%N.   (* source: gc->mitems = %s *)' % (pol, poltext))
     else:
-        emit('gc_next_mitems', None)
-    if setb in (want_set, want_set2, want_set3) and pol:
+        # every theorem holds for EVERY policy and no comparison depends on when the model collects: an expression the
+        # translator does not read is replaced by the pinned policy in the executable model (and said so)
+        emit('gc_next_mitems', 'Definition gc_next_mitems (n : N) : N := (n + n / 2 + 1)%%N.   (* policy of the source NOT translated (%s): '
+             'the executable model uses n + n/2 + 1; the theorems hold for every policy *)' % (poltext or 'two different or no assignments to gc->mitems'))
+    if setb in (want_set, want_set2, want_set3):
         emit('gc_threshold_shape_ok', 'Definition gc_threshold_shape_ok : bool := true.   (* GC_Set: register, then trigger on nitems > mitems *)')
     else:
         emit('gc_threshold_shape_ok', None)
@@ -192,6 +270,20 @@ def generate(repo, emit, src, func_body):
         emit('gc_finaliser_alloc_widens', 'Definition gc_finaliser_alloc_widens : bool := false.   (* GC_Set widens minptr/maxptr only after `if (gc->freelist isnt NULL) return;` *)')
     else:
         emit('gc_finaliser_alloc_widens', None)
+    # --- heap view objects: which internal objects their constructors allocate, and whether those are MANAGED (new) or raw
+    # (new_raw).  The views have no Mark instance (their words are scanned), so what hangs off a raw internal object is
+    # invisible to the collector: containers reachable only through the view would be reclaimed.
+    it = src('src/Iter.c')
+    zb = norm(func_body(it, r'static\s+void\s+Zip_New\s*\([^{]*\{'))
+    sb = norm(func_body(it, r'static\s+void\s+Slice_New\s*\([^{]*\{'))
+    rbb = norm(func_body(it, r'static\s+void\s+Range_New\s*\([^{]*\{'))
+    allocs = re.findall(r'->(iters|values|range|value)=(new|new_raw|new_root)\((\w+)\)', zb + sb + rbb)
+    want_allocs = [('iters', 'Tuple'), ('values', 'Tuple'), ('range', 'Range'), ('value', 'Int')]
+    if [(f, t) for f, _, t in allocs] == want_allocs:
+        emit('view_internals_registered', 'Definition view_internals_registered : bool := %s.   (* Zip: iters, values; Slice: range; Range: value allocated with %s *)'
+             % ('true' if all(a == 'new' for _, a, _ in allocs) else 'false', ' '.join(a for _, a, _ in allocs)))
+    else:
+        emit('view_internals_registered', None)
     if bad:
         emit('gc_mark_shape_ok (changed: %s)' % ', '.join(bad), None)
     else:
